@@ -468,10 +468,15 @@ impl<'a> Interp<'a> {
             };
             match res {
                 Ok(mut v) => {
-                    if f.post == Post::Map {
-                        v = self.flatten_mark(&f.ty, v);
+                    if f.post == Post::AndThen && self.flatten_rejects(&f.ty, &v) {
+                        // the transform's own error, as returned: no location, no span
+                        st.errors.push(leaf(LeafKind::Custom, Where::Nowhere, &f.rust));
+                    } else {
+                        if f.post != Post::None {
+                            v = self.flatten_mark(&f.ty, v);
+                        }
+                        flat_value = Some(v);
                     }
-                    flat_value = Some(v);
                 }
                 Err(ls) => {
                     // names the member did not know either are offered the parent's names too
@@ -550,6 +555,21 @@ impl<'a> Interp<'a> {
             }
         }
         Ok(v)
+    }
+
+    fn flatten_rejects(&self, ty: &Ty, v: &Value) -> bool {
+        let (Ty::Recv(id) | Ty::BoxRecv(id)) = ty else { return false };
+        let r = &self.recvs[*id];
+        let Some(a) = anchor_field(r) else { return false };
+        let f = &r.fields()[a];
+        match v.get(r.name()).and_then(|o| o.get(&f.rust)) {
+            Some(cur) => match f.ty {
+                Ty::Sc(Sc::I64) => cur.as_i64() == Some(42),
+                Ty::Sc(Sc::Str) => cur.as_str() == Some("x"),
+                _ => false,
+            },
+            None => false,
+        }
     }
 
     /// the visible mark a `map` on the flatten member leaves on the member's anchor field
